@@ -27,10 +27,10 @@ Proof.
   destruct keys; [destruct entries; [|discriminate]|]; apply to_full_entries_auth.
 Qed.
 
-Lemma load_initial_view_auth rs h r vs v :
-  load_initial_view rs h r vs = Ok v -> auth_view v /\ v_h v = h /\ v_r v = r /\ v_vals v = vs.
+Lemma load_initial_view_auth rs rp h r vs v :
+  load_initial_view_r rs rp h r vs = Ok v -> auth_view v /\ v_h v = h /\ v_r v = r /\ v_vals v = vs.
 Proof.
-  unfold load_initial_view, bind.
+  unfold load_initial_view_r, bind.
   destruct (to_full_map KPrevote h r (vs_keys vs) _) as [pv|] eqn:Hpv; [|discriminate].
   destruct (to_full_map KPrecommit h r (vs_keys vs) _) as [pc|] eqn:Hpc; [|discriminate].
   intros E; inversion E; subst. cbn. repeat split; cbn.
@@ -62,18 +62,18 @@ Proof.
   assert (Hc : auth_view com).
   { revert Hcom. destruct (ih <=? ch); [|intros E; inversion E; subst; apply auth_view_fresh].
     unfold bind at 1. destruct (if ch =? ih then _ else _) as [vs|]; [|discriminate].
-    unfold bind at 1. destruct (load_initial_view (sr_rounds st) ch cr vs) as [v0|] eqn:Hl; [|discriminate].
-    destruct (load_initial_view_auth _ _ _ _ _ Hl) as (Ha&_).
+    unfold bind at 1. destruct (load_initial_view_r (sr_rounds st) (sr_replayed st) ch cr vs) as [v0|] eqn:Hl; [|discriminate].
+    destruct (load_initial_view_auth _ _ _ _ _ _ Hl) as (Ha&_).
     destruct (v_pc v0) eqn:Hpc0; [discriminate|].
     unfold bind at 1. destruct (if ih <? ch then _ else _) as [pcp|]; [|discriminate].
     destruct (hdr_get _ ch) as [[x xcp]|]; [|discriminate].
     intros E; inversion E; subst. apply auth_view_bump.
     destruct Ha as [A1 A2]. split; cbn; [exact A1|]. first [exact A2 | rewrite Hpc0; exact A2 | rewrite <- Hpc0; exact A2]. }
   unfold bind at 1. destruct (if vh =? ih then _ else _) as [vs|]; [|discriminate].
-  unfold bind at 1. destruct (load_initial_view (sr_rounds st) vh vr vs) as [vot0|] eqn:Hv; [|discriminate].
-  unfold bind at 1. destruct (load_initial_view (sr_rounds st) vh (wrap32 (vr + 1)) vs) as [nxt0|] eqn:Hn; [|discriminate].
-  destruct (load_initial_view_auth _ _ _ _ _ Hv) as ([V1 V2]&_).
-  destruct (load_initial_view_auth _ _ _ _ _ Hn) as ([N1 N2]&_).
+  unfold bind at 1. destruct (load_initial_view_r (sr_rounds st) (sr_replayed st) vh vr vs) as [vot0|] eqn:Hv; [|discriminate].
+  unfold bind at 1. destruct (load_initial_view_r (sr_rounds st) (sr_replayed st) vh (wrap32 (vr + 1)) vs) as [nxt0|] eqn:Hn; [|discriminate].
+  destruct (load_initial_view_auth _ _ _ _ _ _ Hv) as ([V1 V2]&_).
+  destruct (load_initial_view_auth _ _ _ _ _ _ Hn) as ([N1 N2]&_).
   unfold bind. destruct (recheck_view_shifts _) as [s1|] eqn:Hr; [|discriminate].
   intros E; inversion E; subst. apply auth_update_observers.
   eapply auth_recheck; [|exact Hr].
